@@ -9,9 +9,19 @@ MCBstar == <<7, 11>>
 ASSUME TableOk
 ASSUME \A i \in WIds : i \in DOMAIN WTable /\ Len(WTable[i]) = NG
 
+\* The second contribution c is the SUM of the cross-section-like contributions the model holds; every contribution adds
+\* its optical depth to what the path already holds, so the exported transmittances and intensities depend on that sum
+\* only -- not on how many contributions carry it, nor on where the k-table absorption "k" sits among them.  Each
+\* exported vector is realised with the list below ("g1", "g2": c carried by one contribution / split over two);
+\* a deterministic spread over the alphabet: k first / k last / k in the middle, one / two continuum contributions.
+KLists == << <<"k", "g1">>, <<"g1", "k">>, <<"k", "g1", "g2">>, <<"g1", "k", "g2">>, <<"g2", "g1", "k">> >>
+RECURSIVE KHashTo(_)
+KHashTo(l) == IF l = 0 THEN wid + qid ELSE kk[l][1][1] + 2 * kk[l][NW][NG] + 3 * e[l][1] + l * kk[l][1][NG] + KHashTo(l - 1)
+KListOf == KLists[1 + (KHashTo(NL) % Len(KLists))]
+
 KEmitVec == (Export /\ KDone) =>
     PrintT(<<"VEC", ToJson([kk |-> kk, wts |-> Wts, wid |-> wid, c |-> e, tp |-> tp, qid |-> qid, quad |-> Quad,
-                            ltab |-> Ltab, ktr |-> ktr, kint |-> kint,
+                            ltab |-> Ltab, ktr |-> ktr, kint |-> kint, clist |-> KListOf,
                             degenerate |-> Degenerate, saturated |-> ClampedFrom(EffE, 1, ClampE),
                             tmin |-> TMinOf(tp), tmax |-> TMaxOf(tp), ng |-> NG])>>)
 =============================================================================
